@@ -74,14 +74,15 @@ PROPS = {
     'C01': {
         'families': [FOREST, FORESTEXH],
         'kinds': ['roots', 'modifyfail', 'undofail', 'block', 'pdump'],
-        'lean_modules': ['UtreexoVerif.Props.C01'],
+        'lean_modules': ['UtreexoVerif.Props.C01', 'UtreexoVerif.Props.C01b', 'UtreexoVerif.Props.C01c'],
         'theorems': ['UtreexoVerif.Props.C01.' + t for t in ['run_slots', 'batching_independent', 'roots_run', 'numLeaves_run',
                      'roots_length_popcount', 'roots_length_onesCount64', 'mem_treeRows_iff', 'subtree_without_survivors',
                      'sibling_without_survivors_right', 'sibling_without_survivors_left', 'both_halves_survive', 'collapse_leaves',
                      'root_zero_iff_no_survivors', 'roots_def', 'stump_add_refines', 'stump_add_refines_CR', 'roots_add_one',
-                     'stump_update_no_dels_refines']],
-        'unproved': ['UtreexoVerif.Props.C01.stump_update_refines_statement (Stump.update with deletions refines Forest.modify: needs calculateHashes completeness)',
-                     'refinement theorems for Pollard (pointer surgery) and MapPollard: correspondence only'],
+                     'stump_update_no_dels_refines', 'stump_update_refines']] +
+                    ['UtreexoVerif.Props.C01b.' + t for t in ['stump_del_refines', 'stump_del_order_independent', 'stump_update_full',
+                     'stump_update_refines_of_add']],
+        'unproved': ['refinement theorems for Pollard (pointer surgery) and MapPollard: correspondence only'],
         'rule': 'per block: roots and leaf count of Stump, Pollard, MapPollard(full/partial x TotalRows configs) compared with the slot specification; non-trivial = at least one leaf; distinct = distinct observation lines',
         'trusted': COMMON_TRUST,
         'assumptions': ['Pollard pointer surgery is not transliterated: its model is the specification forest'],
@@ -89,8 +90,12 @@ PROPS = {
     'C02': {
         'families': [FOREST, FORESTEXH],
         'kinds': ['prove', 'hverify'],
-        'lean_modules': [],
-        'theorems': [],
+        'lean_modules': ['UtreexoVerif.Props.C02', 'UtreexoVerif.Props.C16c'],
+        'theorems': ['UtreexoVerif.Props.C02.' + t for t in ['honest_proof_verifies', 'honest_proof_verifies_CR', 'mem_touchedIdx',
+                     'touchedIdx_sorted', 'every_live_set_provable', 'canon_defined', 'canon_live', 'canon_perm']] +
+                    ['UtreexoVerif.Props.C16.proofPositions_spec', 'UtreexoVerif.Props.C16.proofPositions_refines',
+                     'UtreexoVerif.Proofs.CalcPlan.plan_run', 'UtreexoVerif.Proofs.SpecPlan.calc_generic'],
+        'unproved': ['MapPollard.Prove / Pollard.Prove return Spec.canon: correspondence only (the provers are pointer/map code)'],
         'rule': 'Prove of live leaf subsets in arbitrary request order on Pollard and MapPollard vs the canonical proof defined on the specification forest',
         'trusted': COMMON_TRUST,
         'assumptions': [],
@@ -107,10 +112,12 @@ PROPS = {
     'C11': {
         'families': [FOREST, FORESTEXH],
         'kinds': ['stumpupdate'],
-        'lean_modules': ['UtreexoVerif.Props.C11'],
+        'lean_modules': ['UtreexoVerif.Props.C11', 'UtreexoVerif.Props.C11del', 'UtreexoVerif.Props.C01b'],
         'theorems': ['UtreexoVerif.Props.C11.' + t for t in ['stump_add_updateData', 'newAddSpec_mem_nodes', 'newAddSpec_added_leaf', 'posFacts']] +
-                    ['UtreexoVerif.Props.C01.stump_update_no_dels_refines', 'UtreexoVerif.Proofs.FinalPos.fpos_eq_liftFold'],
-        'unproved': ['NewDelPos/NewDelHash half of UpdateData (needs calculateHashes completeness)'],
+                    ['UtreexoVerif.Props.C01.stump_update_no_dels_refines', 'UtreexoVerif.Proofs.FinalPos.fpos_eq_liftFold'] +
+                    ['UtreexoVerif.Props.C11del.' + t for t in ['stump_newDel', 'del_calc_roots', 'pathNodes_are_nodes', 'newDelSpec_sorted',
+                     'hashAfter_eq_zero_iff', 'hashAfter_unchanged', 'hashAfter_node']] + ['UtreexoVerif.Props.C01b.stump_update_full'],
+        'unproved': [],
         'rule': 'every Stump.Update replayed on the Lean model of stump.go (all UpdateData fields compared)',
         'trusted': COMMON_TRUST,
         'assumptions': [],
@@ -118,8 +125,11 @@ PROPS = {
     'C05': {
         'families': [ENC],
         'kinds': ['roots', 'modifyfail', 'undofail', 'stumpupdate', 'enc:*'],
-        'lean_modules': [],
-        'theorems': [],
+        'lean_modules': ['UtreexoVerif.Props.C01b', 'UtreexoVerif.Props.C01c', 'UtreexoVerif.Props.C02'],
+        'theorems': ['UtreexoVerif.Props.C01b.stump_del_order_independent', 'UtreexoVerif.Props.C01b.stump_del_refines',
+                     'UtreexoVerif.Props.C01b.stump_update_full', 'UtreexoVerif.Props.C01.stump_update_refines',
+                     'UtreexoVerif.Props.C02.honest_proof_verifies', 'UtreexoVerif.Props.C02.canon_perm'],
+        'unproved': ['Pollard.Modify / MapPollard.Modify apply an accepted block like Forest.modify: correspondence only'],
         'rule': 'every block applied to Stump, Pollard and MapPollard (full/partial, TotalRows configs) in a non-canonical encoding that Verify accepts (permuted target/hash pairs, trailing junk proof hashes, proofs assembled by AddProof / GetProofSubset); roots and leaf counts compared with the specification forest with exactly the named leaves removed; Stump.Update replayed on its Lean model',
         'trusted': COMMON_TRUST,
         'assumptions': [],
